@@ -52,6 +52,9 @@ def universe():
     u += [{'a': {'$np': ['float64', 2.0]}}, {'a': {'$np': ['int64', 2]}}, {'a': {'$np': ['float64', nan(20)]}}, {'a': {'$np': ['float64', 5.0]}}, {'a': 3}, {'a': {'$date': '2020-01-01'}}, {'a': dt('2020-01-01T00:00:00')},
           [{'a': {'$np': ['int64', 1]}}], T({'a': {'$np': ['float32', 2.5]}}), {'a': {'b': {'$np': ['int64', 1]}}}]
     u += [2 ** 53, 2 ** 53 + 1, float(2 ** 53), 10 ** 17, 10 ** 17 + 1, 1e17, {'$np': ['int64', 2 ** 53 + 1]}, T(2 ** 53 + 1, 1), T(float(2 ** 53), 1), T(2 ** 53, 1)]   # ints that round to one float
+    # numpy floats next to ints no double can hold; infinities held as numpy scalars of one dtype
+    u += [10 ** 400, -10 ** 400, {'$np': ['float64', 1.5]}, {'$np': ['float64', float(2 ** 53)]}, T({'$np': ['float64', 1.5]}, 1), T(10 ** 400, 1),
+          {'$np': ['float64', {'$inf': -1}]}, {'$np': ['float64', {'$inf': 1}]}, {'$np': ['float64', 1.0]}, {'$np': ['float32', {'$inf': -1}]}, {'$np': ['float32', 1.0]}, {'$inf': -1}]
     u += [T(0), T(0.0), T(''), T('', ''), T(0, 0), [0], [0.0], [''], T(False), [True], {'a': True}, {'a': 0}]
     u += [dt('2020-01-01T00:00:01'), {'$date': '1999-12-31'}, {'$np': ['datetime64[D]', '2021-06-30']}, T(dt('2021-06-30T00:00:00'), 1), T({'$date': '2020-01-01'}, 1)]
     return u
@@ -233,6 +236,8 @@ def gen_dsort_case(rng):
     fams = {c: rng.choice(['num', 'nan', 'str', 'dt', 'none', 'mixed']) for c in names}
     cols = {c: [sort_scalar(rng, fams[c]) for _ in range(n)] for c in names}
     cols['id'] = list(range(n))
+    if rng.random() < 0.15:
+        cols['lst'] = [rng.choice([[10, 20], [], {'$t': [1, 2]}, [7]]) for _ in range(n)]       # vector-valued cells are cells
     r = rng.random()
     if r < 0.55:
         by = {'cols': rng.sample(names, rng.randint(1, len(names)))}
